@@ -373,6 +373,7 @@ def check(run):
             run.violation("model-impl-correspondence|counted", "Gallina counted-field model and CntField disagree", {"theorem_or_correspondence": "Amoco.C16.Fields.check_cnt / C16_counted_roundtrip", "case": sh[k][:800]}, found_input=True)
     run.cov["counted_fields_in_coq"] = c_ok
     n_ok += c_ok
+    n_ok += sleb_part(run, quick)
     run.cov["traces_validated_against_impl"] = n_ok
     run.cov["trusted_base"] += ["harness/c16.py definition generator, C-layout calculator (validated against gcc -m64 / -m32 -malign-double per run), struct module"]
     run.assumptions += ["bit-fields are generated full-width and left out of the gcc comparison (C packs bit-fields into the storage units of neighbouring members; the definition language gives each group its own unit)",
@@ -665,6 +666,50 @@ def ref_leb(n, signed):
             out.append(b)
             return bytes(out)
         out.append(b | 0x80)
+
+
+def sleb_part(run, quick):
+    """write_sleb128 / read_sleb128 against the Gallina codec Amoco.C16.Sleb (round trip and shortest encoding proved there):
+    values around every septet boundary +-2^(7k-1), +-2^(7k) (k = 1..9), small values and random ones, decoded with tails"""
+    from amoco.system.structs.utils import write_sleb128, read_sleb128
+    rng = random.Random(run.seed * 271 + 5)
+    vals = set(range(-130, 131))
+    for k in range(1, 10):
+        for base in (1 << (7 * k - 1), 1 << (7 * k)):
+            for d in (-2, -1, 0, 1, 2):
+                vals.add(base + d)
+                vals.add(-base + d)
+    for _ in range(200 if quick else 4000):
+        vals.add(rng.choice([1, -1]) * rng.getrandbits(rng.randrange(1, 64)))
+    rows = []
+    for v in sorted(vals):
+        try:
+            bs = bytes(write_sleb128(v))
+            tail = bytes(rng.getrandbits(8) for _ in range(rng.choice([0, 1, 3])))
+            rv, rc = read_sleb128(bs + tail)
+        except Exception as x:
+            run.violation("sleb128-raised|" + type(x).__name__, "write_sleb128 / read_sleb128 raised %r on %d" % (x, v), {"value": v, "error": repr(x)[:200]})
+            continue
+        run.count(("sleb", v), nontrivial=True)
+        rows.append("(%s, %s, %s, (%s, %d))" % ("(%d)" % v if v < 0 else v, "[" + "; ".join(str(b) for b in bs) + "]", "[" + "; ".join(str(b) for b in tail) + "]",
+                                               "(%d)" % rv if rv < 0 else rv, rc))
+    hdr = "From Coq Require Import ZArith List.\nImport ListNotations.\nRequire Import Amoco.C16.Layout Amoco.C16.Sleb.\nOpen Scope Z_scope.\n"
+    sh = [rows[i:i + 400] for i in range(0, len(rows), 400)]
+    texts = [("sleb_%03d" % i, hdr + "Definition cases : list sleb_case := [\n%s\n].\nEval vm_compute in (bad_from check_sleb 0 cases).\n" % ";\n".join(x)) for i, x in enumerate(sh)]
+    res = common.coq_eval_many(run.work / "sleb", texts)
+    ok = 0
+    for i, x in enumerate(sh):
+        rc, out = res["sleb_%03d" % i]
+        lists = common.parse_nat_list(out)
+        if rc != 0 or len(lists) != 1:
+            run.violation("model-eval|sleb128", "SLEB128 model evaluation failed", {"theorem_or_correspondence": "Amoco.C16.Sleb.check_sleb shard %d" % i, "output": out[-800:]}, found_input=False)
+            continue
+        ok += len(x)
+        for k in lists[0][:3]:
+            run.violation("model-impl-correspondence|sleb128", "write_sleb128 / read_sleb128 differ from the Gallina codec (shortest two's-complement groups of 7 bits): %s" % x[k][:200],
+                          {"theorem_or_correspondence": "Amoco.C16.Sleb.check_sleb / C16_sleb128_roundtrip / C16_sleb128_is_shortest", "case(value, written, tail, read back)": x[k][:800]}, found_input=True)
+    run.cov["sleb128_cases_in_coq"] = ok
+    return ok
 
 
 def replay(path):
